@@ -219,12 +219,44 @@ fn operand_form_cases(ctx: &Ctx) -> Vec<(Case, bool)> {
     out
 }
 
+// The same building expression evaluated several times (a maker function
+// called twice, three loop turns, a closure, a method) yields containers that
+// share nothing the expression itself built - at any depth - and exactly what
+// it took from outside.
+fn repeated_building_cases(ctx: &Ctx) -> Vec<(Case, bool)> {
+    // (expression, path to an inner container, in-place change below the top)
+    let builders = [
+        ("[[0, 0], [0, 0]]", "[0]", "[0][1] = 7"), ("[[1], {\"k\": [2]}]", "[1]", "[1].k = 7"), ("{\"k\": [1, 2], \"o\": {\"p\": 1}}", ".k", ".o.p = 7"),
+        ("[[[1]]]", "[0][0]", "[0][0][0] = 7"), ("[[], {}]", "[0]", "[1].n = 7"), ("[[1], [2]][0:1]", "[0]", "[0][0] = 7"), ("[[1]] + [[2]]", "[1]", "[1][0] = 7"),
+        ("[[[1, 2]]..]", "[0]", "[0][0] = 7"), ("{{\"k\": [1]}..}", ".k", ".k[0] = 7"), ("[shared, [1]]", "[0]", "[0][0] = 7"), ("[shared, [1]]", "[1]", "[1][0] = 7"),
+        ("[0 .. 2, 0 .. 2]", "[0]", "[0][0] = 7"), ("[$\"a${word}\", [1]]", "[1]", "[1][0] = 7"), ("{\"k\": {\"k\": {\"k\": 1}}}", ".k.k", ".k.k.k = 7"),
+        ("[[1, 2], [3]][:]", "[1]", "[1][0] = 7"), ("[1, [2, [3, [4]]]]", "[1][1][1]", "[1][1][1][0] = 7"),
+    ];
+    let ways = [
+        "fn mk() {\n    return @\n}\na := mk()\nb := mk()\nc := mk()\n",
+        "kept := []\nfor [_, t] in [0, 1, 2] {\n    kept += [@]\n}\n[a, b, c] := kept\n",
+        "kept := []\ni := 0\nwhile i < 3 {\n    i += 1\n    kept = [kept.., @]\n}\n[a, b, c] := kept\n",
+        "mk := fn () {\n    return @\n}\na := mk()\nb := mk()\nc := mk()\n",
+        "o := {\"mk\": fn () {\n    v := @\n    return v\n}}\na := o.mk()\nb := o.mk()\nc := o.mk()\n",
+        "fn mk(n) {\n    if n == 0 {\n        return []\n    }\n    return [@] + mk(n - 1)\n}\n[a, b, c] := mk(3)\n",
+    ];
+    let mut srcs = vec![];
+    for (e, inner, change) in builders {
+        for w in ways {
+            let src = format!("shared := [5]\nword := \"w\"\n{}print([a === b, b === c, a == b])\nprint([a{inner} === b{inner}, b{inner} === c{inner}])\na{change}\nprint(a)\nprint(b)\nprint(c)\nprint(shared)\n", w.replace('@', e));
+            srcs.push((src, format!("`{e}` evaluated three times; `a{change}`")));
+        }
+    }
+    source_cases(ctx, "C05", "repeated_building", "one building expression evaluated several times", srcs)
+}
+
 pub fn run(ctx: &Ctx) {
-    ctx.set_rule("all histories of length <= 3 (quick; length 4 sampled; thorough: length 4 complete, 5 sampled) over 18 list operations x 3 variable pairs {alias, store in a container, element / range / nested / op-assign mutation, mutation inside a function that also rebinds its parameter, mutation inside a closure, return from a function, [s..], s + [], s[:], [..d] = s, rest parameter from spread, d = s; d += [k], store into another container, += with a list on an element} and 11 object operations likewise, every history followed by print of all three variables and all pairwise === and ==; a catalogue for scalar immutability and freshness of every building operation; random longer programs with the aliasing profile; oracle: reference heap model; beyond the small scope: every building operation and alias on lists of 31..300 elements built three ways, objects of that many keys and long strings (expected values computed in the harness); one random program in five from the big profile; 8 building operations x 10 ways of writing the operand (call returning an existing list, method, property, element, ...): each result fresh, each operand an alias. Non-trivial = the history distinguishes at least one of: assignment copies / argument passing copies / + reuses its left operand (incl. += in place) / single spread aliases / full range read aliases / collect aliases / for iterates live; distinct = distinct source texts");
+    ctx.set_rule("all histories of length <= 3 (quick; length 4 sampled; thorough: length 4 complete, 5 sampled) over 18 list operations x 3 variable pairs {alias, store in a container, element / range / nested / op-assign mutation, mutation inside a function that also rebinds its parameter, mutation inside a closure, return from a function, [s..], s + [], s[:], [..d] = s, rest parameter from spread, d = s; d += [k], store into another container, += with a list on an element} and 11 object operations likewise, every history followed by print of all three variables and all pairwise === and ==; a catalogue for scalar immutability and freshness of every building operation; random longer programs with the aliasing profile; oracle: reference heap model; beyond the small scope: every building operation and alias on lists of 31..300 elements built three ways, objects of that many keys and long strings (expected values computed in the harness); one random program in five from the big profile; 8 building operations x 10 ways of writing the operand (call returning an existing list, method, property, element, ...): each result fresh, each operand an alias; 16 building expressions with inner containers (literals, slices, concatenations, spreads, ranges, one taking an outer list) x 6 ways of evaluating the same text three times (named / anonymous maker, method, for / while turns, recursion): the results share exactly what came from outside, at every depth. Non-trivial = the history distinguishes at least one of: assignment copies / argument passing copies / + reuses its left operand (incl. += in place) / single spread aliases / full range read aliases / collect aliases / for iterates live; distinct = distinct source texts");
     ctx.replay_corpus(None);
     ctx.judge_all(scalar_cases(), Via::Cli, None);
     ctx.judge_all(large_cases(ctx), Via::Cli, None);
     ctx.judge_all(operand_form_cases(ctx), Via::Cli, None);
+    ctx.judge_all(repeated_building_cases(ctx), Via::Cli, None);
     for len in 1..=2 {
         enumerate(ctx, len, false, 1);
         enumerate(ctx, len, true, 1);
